@@ -6,7 +6,7 @@
     table [d] stands for (canonical spelling / aliases / wildcard flag per dedicated variant). *)
 From Base Require Import Prelude Sx EnumDecl.
 From Gen Require Import StringEnums.
-From C19 Require Import Model Spec Bridge Proofs.
+From C19 Require Import Model Spec Bridge Proofs SpecSpellings.
 
 (** The per-declaration obligation: in every declaration no arm can capture a string meant
     for another arm (spellings pairwise distinct, no spelling below a wildcard prefix, no
@@ -103,3 +103,27 @@ Proof.
 Qed.
 Eval compute in "PA:C19_cmp_agrees"%string.
 Print Assumptions C19_cmp_agrees.
+
+(** Every spelling the specification defines (hand transcription per enumeration, [SpecSpellings]) selects
+    a dedicated unit variant of the declaration regenerated from ruma's source, distinct spellings select
+    distinct variants, and the variant prints as that spelling. *)
+Theorem C19_specified_spellings_dedicated :
+  all_specified_dedicated (List.map decl_of_src string_enums) = true.
+Proof. vm_compute. reflexivity. Qed.
+Eval compute in "PA:C19_specified_spellings_dedicated"%string.
+Print Assumptions C19_specified_spellings_dedicated.
+
+Theorem C19_specified_spelling_roundtrip :
+  forall name ss d s,
+  In (name, ss) spec_spellings -> find_decl_named (List.map decl_of_src string_enums) name = Some d -> In s ss ->
+  exists i, from_str d s = VUnit i /\ as_str d (from_str d s) = s.
+Proof.
+  intros name ss d s Hin Hd Hs.
+  pose proof C19_specified_spellings_dedicated as A. unfold all_specified_dedicated in A.
+  rewrite forallb_forall in A. specialize (A _ Hin). unfold spellings_ok in A. cbn [fst snd] in A.
+  rewrite Hd in A. apply andb_true_iff in A as [A _]. rewrite forallb_forall in A. specialize (A _ Hs).
+  unfold dedicated_spelling in A. destruct (from_str d s) as [i| |] eqn:E; try discriminate.
+  exists i. split; [reflexivity|]. now apply str_eqb_eq.
+Qed.
+Eval compute in "PA:C19_specified_spelling_roundtrip"%string.
+Print Assumptions C19_specified_spelling_roundtrip.
